@@ -56,7 +56,7 @@ func yamlUnmarshalStream(in []byte) ([]any, error) {
 			return nil, err
 		}
 
-		obj, err := yamlTranslateNode(&node)
+		obj, err := yamlTranslateNode(&node, map[*yaml.Node]bool{})
 		if err != nil {
 			return nil, err
 		}
@@ -67,16 +67,18 @@ func yamlUnmarshalStream(in []byte) ([]any, error) {
 	return ret, nil
 }
 
-func yamlTranslateNode(node *yaml.Node) (any, error) {
+// expanding holds the anchored nodes whose aliases are being expanded, to
+// reject an anchor that contains an alias to itself (a: &a [*a]).
+func yamlTranslateNode(node *yaml.Node, expanding map[*yaml.Node]bool) (any, error) {
 	switch node.Kind {
 	case yaml.DocumentNode:
-		return yamlTranslateNode(node.Content[0])
+		return yamlTranslateNode(node.Content[0], expanding)
 
 	case yaml.SequenceNode:
 		ret := []any{}
 
 		for _, v := range node.Content {
-			v2, err := yamlTranslateNode(v)
+			v2, err := yamlTranslateNode(v, expanding)
 			if err != nil {
 				return nil, err
 			}
@@ -92,7 +94,7 @@ func yamlTranslateNode(node *yaml.Node) (any, error) {
 		// First see if there's a merge statement, and merge the referenced map(s) into ret.
 		for i := 0; i+1 < len(node.Content); i += 2 {
 			if node.Content[i].Value == "<<" {
-				v2, err := yamlTranslateNode(node.Content[i+1])
+				v2, err := yamlTranslateNode(node.Content[i+1], expanding)
 				if err != nil {
 					return nil, err
 				}
@@ -110,7 +112,7 @@ func yamlTranslateNode(node *yaml.Node) (any, error) {
 				continue
 			}
 
-			v2, err := yamlTranslateNode(node.Content[i+1])
+			v2, err := yamlTranslateNode(node.Content[i+1], expanding)
 			if err != nil {
 				return nil, err
 			}
@@ -149,7 +151,14 @@ func yamlTranslateNode(node *yaml.Node) (any, error) {
 		}
 
 	case yaml.AliasNode:
-		return yamlTranslateNode(node.Alias)
+		if expanding[node.Alias] {
+			return nil, fmt.Errorf("anchor '%s' value contains itself (%w)", node.Value, ErrCircularRef)
+		}
+
+		expanding[node.Alias] = true
+		defer delete(expanding, node.Alias)
+
+		return yamlTranslateNode(node.Alias, expanding)
 
 	case 0:
 		return nil, nil
